@@ -118,6 +118,11 @@ def run(case, ctx, rng):
                 ctx.eq('multi:wb==FIPS46-3', nets[i], rdes.enc(keys[i], B), K=keys[i]); continue
             ctx.eq('multi:wb==FIPS46-3', call(nets[i][4].enc, B), rdes.enc(keys[i], B), K=keys[i], B=B, keys=keys)
         ctx.notes['programs'] += len(keys)
+        if not is_exc(nets[0]) and not is_exc(nets[1]):
+            W = nets[0][4]
+            call(W.enc, Bs[0])
+            W.KT = nets[1][0]                          # the object now carries the second key's T-boxes
+            ctx.eq('multi:wb==FIPS46-3', call(W.enc, Bs[1]), rdes.enc(keys[1], Bs[1]), K=keys[1], B=Bs[1], KT_replaced_on_live_object=True)
     else:
         K = rng.randbytes(8)
         flips = rng.randrange(1, 256)
